@@ -389,7 +389,6 @@ class Ircam(Container):
     name, major = "ircam", 0x0A
     codecs = (0x02, 0x04, 0x06, 0x10, 0x11)
     channels = (1, 2, 3, 127, 128, 200, 255, 256)
-    KF_RATE, KF_CH = "KF-C10-ircam-rate", "KF-IRCAM-BE-CHANNELS"
 
     def big(self, f):
         return f.endian == FM.BE
@@ -398,17 +397,10 @@ class Ircam(Container):
         return (0x20000000 if self.big(f) else 0x10000000) | (self.major << 16) | f.codec
 
     def expected_rate(self, job):
-        """C04 allows the documented quantisation: the rate field is a binary32 number"""
+        """C04 allows the documented quantisation: the rate field is a binary32 number; rates that would round to 2^31 are stored as
+        the largest binary32 below it (KF-C10-ircam-rate repaired).  KF-IRCAM-BE-CHANNELS is repaired too: nothing is waived here."""
         q = f32_round(job.sr)
-        return q if q is not None else job.sr
-
-    def rate_known(self, job, reopen_line):
-        if reopen_line.startswith("open=NULL"):
-            if self.big(job.f) and 128 <= job.ch <= 255:
-                return self.KF_CH
-            if job.sr >= 2 ** 31 - 64:
-                return self.KF_RATE
-        return None
+        return q if q is not None else 2 ** 31 - 128
 
     def size_fields(self, job, final, fr):
         if len(final) != 1024 + job.n * job.bw:
@@ -531,15 +523,10 @@ class Svx(Container):
     codecs = (0x01, 0x02)
     channels = (1,)
     path_route = True
-    KF_RATE = "KF-RATE16-WRAP"
 
     def expected_rate(self, job):
-        return job.sr % 65536
-
-    def rate_known(self, job, reopen_line):
-        if reopen_line.startswith("open=NULL") and job.sr % 65536 == 0:
-            return self.KF_RATE
-        return None
+        """the 16-bit field saturates (KF-RATE16-WRAP repaired: it used to hold the rate modulo 65536, 0 for multiples of 65536)"""
+        return min(job.sr, 65535)
 
     def model_cfg(self, job):
         return "codec=%02x endian=%d ch=%d sr=%d" % (job.f.codec, job.f.endian >> 28, job.ch, job.sr)
